@@ -153,6 +153,23 @@ impl<T: ?Sized> RwLock<T> {
     }
 }
 
+/// Verification hook (off unless built with `--cfg tiny_std_verif`): account for read guards
+/// without creating them, so that a simulation can start next to the reader limit instead of
+/// taking a billion guards. Equivalent to taking `n` read guards and forgetting them (`add`),
+/// or to dropping `n` such guards again.
+#[cfg(tiny_std_verif)]
+impl<T: ?Sized> RwLock<T> {
+    pub const VERIF_MAX_READERS: u32 = MAX_READERS;
+
+    pub fn verif_adjust_readers(&self, n: u32, add: bool) {
+        if add {
+            self.inner.state.fetch_add(n * READ_LOCKED, Relaxed);
+        } else {
+            self.inner.state.fetch_sub(n * READ_LOCKED, Release);
+        }
+    }
+}
+
 struct InnerLock {
     state: AtomicU32,
     writer_notify: AtomicU32,
